@@ -106,11 +106,12 @@ def finalise(sc):
         steps.append({"a": "Read", "r": r})
         if not heavy:
             steps.append({"a": "Verify", "r": r})
-    for (a, b) in ((1, 2), (1, 3), (2, 3)):
+    padded = sc["nf"][0] > 0       # every law instance clones and projects ~1021 fillers: fewer instances
+    for (a, b) in ((1, 2),) if padded else ((1, 2), (1, 3), (2, 3)):
         steps.append({"a": "Law", "k": "comm", "p": a, "q": b, "t": 1, "vm": False})
-    for (a, b, c) in ((1, 2, 3), (3, 1, 2)):
+    for (a, b, c) in ((3, 1, 2),) if padded else ((1, 2, 3), (3, 1, 2)):
         steps.append({"a": "Law", "k": "assoc", "p": a, "q": b, "t": c, "vm": False})
-    for a in range(1, n + 1):
+    for a in (n,) if padded else range(1, n + 1):
         steps.append({"a": "Law", "k": "idem", "p": a, "q": 1, "t": 1, "vm": False})
     sc = dict(sc)
     sc["steps"] = steps
@@ -224,12 +225,17 @@ def run(prop, tier, replay=None):
         scs = [replay["scenario"]]
     else:
         # 1. TLC: every state / step of the bounded model against the clauses (modulo the known findings)
-        mc = tlc("register", "MCRegister", "MCRegister_thorough.cfg" if thorough else "MCRegister.cfg", w,
-                 workers=8, coverage=False, timeout=3000, heap="16g" if thorough else "8g")
-        if mc.violated:
-            raise ToolError("a C06 clause (modulo known findings) is false in the model itself (%s) -- the model no longer describes "
-                            "the design that was confirmed on the code; model counterexample:\n%s" % (mc.violated, mc.error_text[:3000]))
-        v.add_model(mc)
+        #    quick: 3 replicas, 7 operations, 5 calls deep; thorough: 3 replicas / 8 operations / more hand-made replicas,
+        #    and 4 replicas / 8 operations, one call deeper each
+        for cfg in (("MCRegister_thorough.cfg", "MCRegister_thorough4.cfg") if thorough else ("MCRegister.cfg",)):
+            mc = tlc("register", "MCRegister", cfg, w, workers=8, coverage=False, timeout=3000, heap="16g" if thorough else "8g")
+            if mc.violated:
+                raise ToolError("a C06 clause (modulo known findings) is false in the model itself (%s, %s) -- the model no longer "
+                                "describes the design that was confirmed on the code; model counterexample:\n%s"
+                                % (cfg, mc.violated, mc.error_text[:3000]))
+            v.add_model(mc)
+            v.cov.setdefault("model_runs", []).append({"cfg": cfg, "distinct": mc.distinct, "generated": mc.generated,
+                                                      "depth": mc.depth, "wall_s": round(mc.wall, 1)})
         phase("tlc_model")
         # per-action coverage (TLC's coverage statistics slow the exploration ~20x: separate shallow run)
         cv = tlc("register", "MCRegister", "MCRegister_cov.cfg", w, workers=4, coverage=True, timeout=1200)
@@ -247,7 +253,7 @@ def run(prop, tier, replay=None):
                 v.drift.append({"what": "model", "detail": "%s: expected TLC to report %s in the model, got %s" % (cfg, inv, r.violated)})
         phase("tlc_coverage_and_raw")
         cex, _ = load_tlc_scenarios(cex_file, pool_file) if os.path.exists(cex_file) else ([], 3)
-        cex = [s for s in cex if not is_heavy(s)][:4] + [s for s in cex if is_heavy(s)][:1]
+        cex = [s for s in cex if not is_heavy(s)][:6]
         for s in cex:
             s["src"] = "tlc-cex"
         # 2. behaviours of the model as scenarios
@@ -298,7 +304,8 @@ def run(prop, tier, replay=None):
         kf = known_for(x)
         what = "%s false at %s (scenario %s/%s, seq %s) facts=%s" % (x["clause"], describe(e), sc["src"], sc["id"], e["seq"],
                                                                    json.dumps({k: x["f"][k] for k in x["f"] if x["f"][k] not in ("", 0, [], False)}))
-        if kf and not replay:
+        # a replay applies the same masks, unless the file is the kept demonstration of a known finding
+        if kf and not (replay and replay.get("show_known")):
             v.known_finding(kf, what)
             continue
         if (x["clause"], e["run"]) in reported:
@@ -351,6 +358,8 @@ def run(prop, tier, replay=None):
         "'received' in the convergence clause = delivered and accepted (an operation refused with TooManyEntries was not received)",
         "the model is explored exhaustively to a bounded depth; the scenarios replayed on the code are a seeded sample of the "
         "model's behaviours plus seeded random histories (exhaustive=false)",
+        "closure: a state must pass verify() and be accepted as the source of a verified_merge by every replica of the register whose "
+        "merged result fits the entry-count limit (refusing a merge that would not fit is not a verdict on the source's validity)",
         "fillers (valid root operations of the owner) stand for the 1021 entries that separate the scaled limit 3 from the real limit 1024",
     ]
     return v.finish()
